@@ -17,6 +17,8 @@ pub struct KBase<'a> {
     pub scheme: &'a str,
     pub cannot_be_a_base: bool,
     pub path: &'a str,
+    /// "://" follows the scheme (Url::has_authority)
+    pub has_authority: bool,
 }
 
 /// text of the input as the parser sees it: C0/space trimmed, tab/LF/CR removed
@@ -238,7 +240,9 @@ fn kf_run(hh: bool, t: &[char]) -> (Vec<Vec<char>>, bool) {
     let mut b: Vec<char> = vec![];
     let mut ok = true;
     let fin_ok = |p: &Vec<Vec<char>>, b: &[char]| {
-        !(double_dot(b) && p.last().map_or(false, |s| wdl_seg(s))) && !(hh && p.is_empty() && is_wdl(b))
+        // ".." on a drive-letter-shaped last segment - unless it is the sole segment and a normalized drive letter
+        !(double_dot(b) && p.last().map_or(false, |s| wdl_seg(s)) && !(p.len() == 1 && is_nwdl(&p[0])))
+            && !(hh && p.is_empty() && is_wdl(b))
     };
     for &c in t {
         if is_sl(c) {
@@ -295,16 +299,38 @@ fn k_two_sl(r: &[char]) -> bool {
 }
 /// R inside the proved file class and: "file:" R with no base or a base with another scheme; "file:" R against
 /// a file base when R starts with two separators; a scheme-less R that starts with two separators against a
-/// file base (Model/KnownC01.v k_file_narrow)
+/// file base; R (scheme-less or behind "file:") with ONE leading separator against a file base whose host is
+/// kept (one_keep) (Model/KnownC01.v k_file_narrow)
+/// Model/KnownC01.v k_one_keep: R = one separator + a text that starts neither with a separator nor with a Windows
+/// drive letter; the base has an authority and the first segment of its path is not a normalized drive letter
+fn one_keep(b: &KBase, r: &[char]) -> bool {
+    if r.is_empty() || !is_sl(r[0]) {
+        return false;
+    }
+    let r1 = &r[1..];
+    if r1.first().map_or(false, |c| is_sl(*c)) || wdl_seg(r1) || !b.has_authority {
+        return false;
+    }
+    let p: Vec<char> = b.path.chars().collect();
+    if p.first() != Some(&'/') {
+        return false;
+    }
+    let first: Vec<char> = p[1..].split(|c| *c == '/').next().map(|s| s.to_vec()).unwrap_or_default();
+    !is_nwdl(&first)
+}
 fn file_narrow(base: Option<&KBase>, input: &str) -> bool {
     let t = cleaned(input);
     match leading_scheme(&t) {
         Some(s) => {
             let p = t.iter().position(|&c| c == ':').map(|p| p + 1).unwrap_or(t.len());
             let r = &t[p..];
-            s == "file" && base.map_or(true, |b| b.scheme != "file" || k_two_sl(r)) && k_file_ok(r)
+            s == "file"
+                && base.map_or(true, |b| b.scheme != "file" || k_two_sl(r) || (!b.cannot_be_a_base && one_keep(b, r)))
+                && k_file_ok(r)
         }
-        None => base.map_or(false, |b| b.scheme == "file" && !b.cannot_be_a_base && k_two_sl(&t) && k_file_ok(&t)),
+        None => base.map_or(false, |b| {
+            b.scheme == "file" && !b.cannot_be_a_base && (k_two_sl(&t) || one_keep(b, &t)) && k_file_ok(&t)
+        }),
     }
 }
 
